@@ -20,7 +20,7 @@ Harnesses (vf/schedlab.py):
 import concurrent.futures
 import re
 
-from ..core import Partial, pmap, HarnessError
+from ..core import Partial, pmap, pqueue, HarnessError
 from .. import schedlab as S
 
 PID = 'C11'
@@ -75,45 +75,41 @@ _BIN = {}
 
 def job(item):
     """One sub-tree: run the harness binary on a choice prefix."""
-    which, args, bound, prefix, split = item
+    which, args, bound, prefix, cap = item
     binary = _BIN[which]
     csv = ','.join(map(str, prefix))
     if which.startswith('h1'):
-        argv = args + [bound, csv, split]
+        argv = args + [bound, csv, cap]
     else:
-        argv = args + [bound, csv, -1, split]
+        argv = args + [bound, csv, cap, 0]
     code, lines, err = binary.run(argv)
-    return item, code, lines, err
+    spawned = lines[0].get('spawned', []) if lines and code in (0, 1) else []
+    return (item, code, lines, err), [(which, args, bound, pre, cap) for pre in spawned]
 
 
 def run_experiment(ctx, name, which, args, bound, split):
-    """Level-wise distribution of sub-trees over worker processes."""
-    level = [[]]
+    """Work sharing: every job explores at most CAP schedules of its sub-tree and hands the unexplored
+    sub-trees (choice prefixes) back; a dynamic queue feeds them to the worker processes."""
+    cap = 4000
     total = {'executions': 0, 'violations': 0, 'deadlocks': 0, 'points': 0, 'outcomes': {}, 'first': None,
              'demanded': 0, 'raised': 0}
-    rounds = 0
-    while level:
-        rounds += 1
-        nxt = []
-        for item, code, lines, err in pmap(job, [(which, args, bound, pre, split) for pre in level]):
-            if code not in (0, 1) or not lines:
-                raise HarnessError(f'{name}: harness exit {code}: {err[-400:]}')
-            res = lines[0]
-            if res.get('diverged'):
-                raise HarnessError(f'{name}: replay divergence on prefix {item[3]}')
-            total['executions'] += res['executions']
-            total['violations'] += res['violations']
-            total['deadlocks'] += res['deadlocks']
-            total['points'] += res['total_points']
-            for k, v in res['outcomes'].items():
-                total['outcomes'][k] = total['outcomes'].get(k, 0) + v
-            if res['violations'] and (total['first'] is None or len(res['first_schedule']) < len(total['first'][1])):
-                total['first'] = (res['first_violation'], res['first_schedule'])
-            nxt += res['spawned']
-            for extra in lines[1:]:
-                total['demanded'] += extra.get('deliveries_demanded', 0)
-                total['raised'] += extra.get('out_events_raised', 0)
-        level = nxt
+    for item, code, lines, err in pqueue(job, [(which, args, bound, [], cap)]):
+        if code not in (0, 1) or not lines:
+            raise HarnessError(f'{name}: harness exit {code}: {err[-400:]}')
+        res = lines[0]
+        if res.get('diverged'):
+            raise HarnessError(f'{name}: replay divergence on prefix {item[3]}')
+        total['executions'] += res['executions']
+        total['violations'] += res['violations']
+        total['deadlocks'] += res['deadlocks']
+        total['points'] += res['total_points']
+        for k, v in res['outcomes'].items():
+            total['outcomes'][k] = total['outcomes'].get(k, 0) + v
+        if res['violations'] and (total['first'] is None or len(res['first_schedule']) < len(total['first'][1])):
+            total['first'] = (res['first_violation'], res['first_schedule'])
+        for extra in lines[1:]:
+            total['demanded'] += extra.get('deliveries_demanded', 0)
+            total['raised'] += extra.get('out_events_raised', 0)
     ctx.evaluations += total['executions']
     ctx.states += total['executions']
     ctx.transitions += total['points']
@@ -180,7 +176,7 @@ def judge(case):
             races = set(re.findall(r'SUMMARY: ThreadSanitizer: (.*)', err))
             return [(f'tsan:{r[:80]}', r) for r in races]
         csv = ','.join(map(str, case['schedule']))
-        argv = case['args'] + ([0, csv, 0] if which == 'h1' else [0, csv, 1, 0])
+        argv = case['args'] + ([0, csv, 1] if which == 'h1' else [0, csv, 1, 0])
         import os  # pylint: disable=import-outside-toplevel
         os.environ['VF_NOCACHE'] = '1'
         _code, lines, _err = binary.run(argv)
